@@ -159,8 +159,37 @@ fn check_backend<F: Backend>(
         child::note(&format!("C11 {name} interval eval | program {:016x}", p.hash()));
         let bj = || json!({"box_by_var_slot": bx.iter().map(|(l, u)| format!("[{l:?}, {u:?}]")).collect::<Vec<_>>()});
         match guarded(|| interval_eval(&f, &input)) {
-            Ok(Ok((out, _))) => {
+            Ok(Ok((out, trace))) => {
                 st.inc("interval_evals");
+                // a returned trace is consumed by simplify() in every
+                // pipeline (renderers, mesher); an undecided or NaN clause
+                // must not make that step, or the evaluation of its result,
+                // panic either
+                if trace.is_some() {
+                    child::note(&format!("C11 {name} simplify with the returned interval trace | program {:016x}", p.hash()));
+                    let simplified = guarded(|| -> Result<Option<F>, String> {
+                        let tape = f.interval_tape(Default::default());
+                        let mut ev = F::new_interval_eval();
+                        let (_, tr) = ev.eval(&tape, &input).map_err(|e| e.to_string())?;
+                        let Some(tr) = tr else { return Ok(None) };
+                        let mut ws = Default::default();
+                        f.simplify(tr, Default::default(), &mut ws).map(Some).map_err(|e| e.to_string())
+                    });
+                    match simplified {
+                        Ok(Ok(Some(g))) => {
+                            st.inc("simplifications_of_interval_traces");
+                            let by_slot = boxes::point_in(rng, bx);
+                            let q: Vec<f32> = slot.iter().map(|&s| by_slot[s]).collect();
+                            child::note(&format!("C11 {name} point eval of the simplified function | program {:016x}", p.hash()));
+                            if let Err(pi) = guarded(|| point_eval(&g, &q)) {
+                                return Err(panic_viol("point_after_simplify", name, &pi, String::new(), bj()));
+                            }
+                        }
+                        Ok(Ok(None)) => {}
+                        Ok(Err(e)) => return Err(Viol { sig: format!("spurious_error:{name}:simplify"), msg: format!("simplify rejected the trace the interval evaluator had just returned: {e}"), detail: bj() }),
+                        Err(pi) => return Err(panic_viol("simplify_after_interval", name, &pi, String::new(), bj())),
+                    }
+                }
                 if out.iter().any(|i| i.lower().is_infinite() || i.upper().is_infinite() || i.has_nan()) {
                     st.inc("interval_evals_with_overflow_or_nan_output");
                 }
@@ -279,6 +308,18 @@ fn check_arg_errors<F: Backend>(b: &prog::Built, roots: &[Node], rng: &mut Rng, 
             expect_err("mismatched_grad_slices", guarded(|| F::new_grad_slice_eval().eval(&gt, &gcols).is_err()))?;
             st.inc("argerr_mismatch_checked");
         }
+        // a mismatched length among the extra (unused) slices is still a
+        // mismatch: the evaluators size their work from the slices
+        for n in [3usize, 9] {
+            let mut cols = vec![vec![0.5f32; n]; nv + 2];
+            let k = nv + rng.below(2);
+            cols[k] = vec![0.5; *rng.pick(&[0usize, 1, 8, 17])];
+            expect_err("mismatched_extra_float_slice", guarded(|| F::new_float_slice_eval().eval(&ft, &cols).is_err()))?;
+            let mut gcols = vec![vec![Grad::from(0.5); n]; nv + 2];
+            gcols[k] = vec![Grad::from(0.5); n + 1];
+            expect_err("mismatched_extra_grad_slice", guarded(|| F::new_grad_slice_eval().eval(&gt, &gcols).is_err()))?;
+        }
+        st.inc("argerr_extra_mismatch_checked");
         // extra variables and zero-length slices are fine
         let cols = vec![Vec::<f32>::new(); nv + 2];
         match guarded(|| F::new_float_slice_eval().eval(&ft, &cols).map(|o| o.len())) {
